@@ -235,6 +235,14 @@ func analyseCoilPacking(c *Ctx, fn *ssa.Function) packInfo {
 }
 
 func checkC11(c *Ctx, r *Report) {
+	// R11.9: the payload a lookup reads is still the reply's: no method declared on a coil reply type
+	// (or on a struct it embeds) writes the payload or stores through its receiver, whichever other
+	// methods ran before the lookup (a String() run by a log statement)
+	{
+		fam := packetFamily(c, "packet", func(tn *types.Named) bool { return hasMethodNamed(c, tn, "IsCoilSet", "IsInputSet") })
+		r.instance("R11.9", packetValuesImmutable(c, r, "R11.9", "packet", fam, nil))
+		r.floor("R11.9", 12)
+	}
 	r.floor("R11.1", 1)
 	r.floor("R11.4", 3)
 	r.floor("R11.2", 1)
